@@ -38,12 +38,16 @@ VARIABLES now,
           blk,         \* b -> [until, dur]: BlockingStatus.blocked_until / last_blocking_duration
           st,          \* b -> _last_status
           nf,          \* ghost: b -> number of consecutive effective failures behind the current block
+          rst,         \* ghost: b -> why the failure count was last reset ("init" | "okIdle" | "okBlocked" |
+                       \*        "okExpiredUN" / "okExpiredWK": success after the block had expired, status still
+                       \*        UNCERTAIN / already WORKING again | "recovery"); "none" once blocked
+                       \*        again.  In VIEW, so that histories THROUGH each kind of reset are emitted.
           fresh,       \* ghost: b -> status was (re)evaluated at the current instant
           nev,         \* environment events so far
           sent,        \* b -> sequence of statuses put on the status channel (hidden by VIEW)
           h            \* history of actions (hidden by VIEW)
 
-vars == <<now, bat, inv, tmr, late, blk, st, nf, fresh, nev, sent, h>>
+vars == <<now, bat, inv, tmr, late, blk, st, nf, rst, fresh, nev, sent, h>>
 
 None == -99
 Min2(a, b) == IF a <= b THEN a ELSE b
@@ -58,7 +62,7 @@ Bounded == Mode \in {"gen", "sim", "mcb"}   \* bound time and events (histories 
 RelS(s) == IF s.arr = None THEN <<s.ok>> ELSE <<s.ok, s.q, s.arr - s.ts, Min2(now - s.arr, MaxAge)>>
 RelK(k) == <<IF k.until = None THEN None ELSE Max2(k.until - now, 0), k.dur>>
 View == [b \in Bats |-> <<RelS(bat[b]), RelS(inv[b]), tmr[b].bt - now, tmr[b].it - now, late[b],
-                          RelK(blk[b]), st[b], Min2(nf[b], 4), fresh[b]>>]
+                          RelK(blk[b]), st[b], Min2(nf[b], 4), rst[b], fresh[b]>>]
 
 EmitOn == "OUT_FILE" \in DOMAIN IOEnv
 Emit(v) == IF EmitOn THEN CSVWrite("%1$s", <<ToJson(v)>>, IOEnv.OUT_FILE) ELSE TRUE
@@ -111,6 +115,7 @@ Settle(b, nb, ni, k, n) ==
     /\ blk' = [blk EXCEPT ![b] = e.k]
     /\ st' = [st EXCEPT ![b] = e.s]
     /\ nf' = [nf EXCEPT ![b] = IF e.rec THEN 0 ELSE n]
+    /\ rst' = [rst EXCEPT ![b] = IF e.rec THEN "recovery" ELSE @]
     /\ fresh' = [fresh EXCEPT ![b] = TRUE]
     /\ sent' = [sent EXCEPT ![b] = IF e.s # st[b] THEN Append(@, e.s) ELSE @]
 
@@ -124,6 +129,7 @@ Init ==
     /\ blk = [b \in Bats |-> [until |-> None, dur |-> MinBlock]]
     /\ st = [b \in Bats |-> "NW"]
     /\ nf = [b \in Bats |-> 0]
+    /\ rst = [b \in Bats |-> "init"]
     /\ fresh = [b \in Bats |-> FALSE]
     /\ nev = 0
     /\ sent = [b \in Bats |-> <<>>]
@@ -136,7 +142,7 @@ Tick ==
     /\ Quiescent /\ (Bounded => now < Horizon)
     /\ now' = now + 1
     /\ fresh' = [b \in Bats |-> FALSE]
-    /\ UNCHANGED <<bat, inv, tmr, late, blk, st, nf, nev, sent>>
+    /\ UNCHANGED <<bat, inv, tmr, late, blk, st, nf, rst, nev, sent>>
 
 \* lt: the timer tick of the stream had already been selected (pre-empted and late) or not (reset in time)
 BatMsg(b, kind, lt, acc) ==
@@ -166,6 +172,13 @@ Res(f) ==
     IN /\ blk' = [b \in Bats |-> e[b].k]
        /\ st' = [b \in Bats |-> e[b].s]
        /\ nf' = [b \in Bats |-> IF e[b].rec THEN 0 ELSE n1[b]]
+       /\ rst' = [b \in Bats |->
+                   IF e[b].rec THEN "recovery"
+                   ELSE IF f[b] = "ok" THEN (IF blk[b].until = None THEN (IF rst[b] = "init" THEN "init" ELSE "okIdle")
+                                             ELSE IF blk[b].until > now THEN "okBlocked"
+                                             ELSE IF st[b] = "WK" THEN "okExpiredWK" ELSE "okExpiredUN")
+                   ELSE IF hit(b) /\ ~Blocked(blk[b], now) THEN "none"
+                   ELSE rst[b]]
        /\ fresh' = [b \in Bats |-> TRUE]
        /\ sent' = [b \in Bats |-> IF e[b].s # st[b] THEN Append(sent[b], e[b].s) ELSE sent[b]]
        /\ nev' = nev + 1
@@ -177,28 +190,28 @@ TimerIgnored(s) == s.ts # None /\ now - s.ts < MaxAge        \* `continue`: no r
 BatTimer(b) ==
     /\ tmr[b].bt <= now /\ ~late[b].bt
     /\ tmr' = [tmr EXCEPT ![b].bt = @ + MaxAge]
-    /\ IF TimerIgnored(bat[b]) THEN UNCHANGED <<bat, inv, blk, st, nf, fresh, sent>>
+    /\ IF TimerIgnored(bat[b]) THEN UNCHANGED <<bat, inv, blk, st, nf, rst, fresh, sent>>
        ELSE Settle(b, [bat[b] EXCEPT !.ok = FALSE], inv[b], blk[b], nf[b])
     /\ UNCHANGED <<now, late, nev>>
 
 InvTimer(b) ==
     /\ tmr[b].it <= now /\ ~late[b].it
     /\ tmr' = [tmr EXCEPT ![b].it = @ + MaxAge]
-    /\ IF TimerIgnored(inv[b]) THEN UNCHANGED <<bat, inv, blk, st, nf, fresh, sent>>
+    /\ IF TimerIgnored(inv[b]) THEN UNCHANGED <<bat, inv, blk, st, nf, rst, fresh, sent>>
        ELSE Settle(b, bat[b], [inv[b] EXCEPT !.ok = FALSE], blk[b], nf[b])
     /\ UNCHANGED <<now, late, nev>>
 
 BatLate(b) ==
     /\ late[b].bt
     /\ late' = [late EXCEPT ![b].bt = FALSE]
-    /\ IF TimerIgnored(bat[b]) THEN UNCHANGED <<bat, inv, blk, st, nf, fresh, sent>>
+    /\ IF TimerIgnored(bat[b]) THEN UNCHANGED <<bat, inv, blk, st, nf, rst, fresh, sent>>
        ELSE Settle(b, [bat[b] EXCEPT !.ok = FALSE], inv[b], blk[b], nf[b])
     /\ UNCHANGED <<now, tmr, nev>>
 
 InvLate(b) ==
     /\ late[b].it
     /\ late' = [late EXCEPT ![b].it = FALSE]
-    /\ IF TimerIgnored(inv[b]) THEN UNCHANGED <<bat, inv, blk, st, nf, fresh, sent>>
+    /\ IF TimerIgnored(inv[b]) THEN UNCHANGED <<bat, inv, blk, st, nf, rst, fresh, sent>>
        ELSE Settle(b, bat[b], [inv[b] EXCEPT !.ok = FALSE], blk[b], nf[b])
     /\ UNCHANGED <<now, tmr, nev>>
 
@@ -263,6 +276,7 @@ NotifyOnlyOnChange ==
 BackoffDoubles ==
     \A b \in Bats :
        /\ (blk[b].until = None) <=> (nf[b] = 0)
+       /\ (blk[b].until = None) <=> (rst[b] # "none")      \* every success / recovery resets, blocked or not
        /\ blk[b].until # None => /\ blk[b].dur = BackoffDur(nf[b])
                                  /\ blk[b].until <= now + blk[b].dur
        /\ (st[b] # "NW" /\ Blocked(blk[b], now)) => st[b] = "UN"              \* UNCERTAIN during the block
